@@ -282,6 +282,24 @@ mutual
     | k :: ks => namesOK k && namesOKList ks
 end
 
+/-- characters a namespace URI may consist of if it is to survive being written verbatim
+(`renderAttrs`): XML-legal and none of `"`, `<`, `&` -/
+def plainNsChar (c : Char) : Bool := legalChar c && c != '"' && c != '<' && c != '&'
+
+def nsAttrsOK (as : List (Str × Str)) : Bool :=
+  as.all fun kv => !isNsDecl kv.1 || kv.2.all plainNsChar
+
+mutual
+  /-- the VALUES of namespace declarations (`xmlns`, `xmlns:p`) are plain; says nothing about any
+  other attribute value or text.  Needed only because Qt writes namespace URIs unescaped. -/
+  def nsValuesOK : Node → Bool
+    | .text _ => true
+    | .elem _ as ks => nsAttrsOK as && nsValuesOKList ks
+  def nsValuesOKList : List Node → Bool
+    | [] => true
+    | k :: ks => nsValuesOK k && nsValuesOKList ks
+end
+
 def Node.isText : Node → Bool
   | .text _ => true
   | .elem .. => false
@@ -297,12 +315,13 @@ def noAdjText : List Node → Bool
 
 mutual
   /-- trees that survive a write/read cycle unchanged: names are names, every character is one the
-  writer lets through, text nodes are non-blank (QDom drops white-space-only text; CR/LF/TAB inside
+  writer lets through, namespace URIs are plain (`nsAttrsOK`), text nodes are non-blank (QDom drops white-space-only text; CR/LF/TAB inside
   a non-blank text are kept by Qt 5.15.8 and therefore allowed here), no two adjacent text nodes -/
   def wellFormed : Node → Bool
     | .text s => s.all legalChar && !blank s
     | .elem n as ks =>
-      okName n && as.all (fun kv => okName kv.1 && kv.2.all legalChar) && wellFormedList ks && noAdjText ks
+      okName n && as.all (fun kv => okName kv.1 && kv.2.all legalChar) && nsAttrsOK as
+        && wellFormedList ks && noAdjText ks
   def wellFormedList : List Node → Bool
     | [] => true
     | k :: ks => wellFormed k && wellFormedList ks
@@ -312,6 +331,8 @@ end
 abbrev NamesOK (t : Node) : Prop := namesOK t = true
 /-- see `wellFormed` -/
 abbrev WellFormed (t : Node) : Prop := wellFormed t = true
+/-- see `nsValuesOK` -/
+abbrev NsValuesOK (t : Node) : Prop := nsValuesOK t = true
 
 /-- `s` begins with one of the seven references `QXmlStreamWriter` emits -/
 def startsEntity (s : Str) : Bool :=
@@ -325,15 +346,13 @@ def localName (n : Str) : Str :=
   | [] => n
   | _ :: l => l
 
-def isXmlnsAttr (k : Str) : Bool := k = "xmlns".toList || "xmlns:".toList.isPrefixOf k
-
 mutual
   /-- `QDomDocument::setContent(…, namespaceProcessing = true)` as seen through `tagName()` and
   `attributes()`: names lose their prefix, namespace declarations are not attributes -/
   def qdomView : Node → Node
     | .text s => .text s
     | .elem n as ks =>
-      .elem (localName n) ((as.filter fun kv => !isXmlnsAttr kv.1).map fun kv => (localName kv.1, kv.2)) (qdomViewList ks)
+      .elem (localName n) ((as.filter fun kv => !isNsDecl kv.1).map fun kv => (localName kv.1, kv.2)) (qdomViewList ks)
   def qdomViewList : List Node → List Node
     | [] => []
     | k :: ks => qdomView k :: qdomViewList ks
